@@ -115,22 +115,27 @@ def simAddField (field ftype : String) (initial : Option Val) (attrs : List (Str
       | none => none
     .ok (m.addField ⟨field, ftype, popKey attrs "related_model", related⟩)
 
+/-- the field signature after `ChangeField.simulate` updated it in place -/
+def changedField (e : Env) (f : FieldSig) (ftype : Option String) (attrs : List (String × Val)) : FieldSig :=
+  let typeChanged : Bool := match ftype with
+    | none => false
+    | some t => if t == f.ftype then false
+                else !(e.dbType f.ftype f.attrs == e.dbType t (popKey attrs "related_model"))
+  { f with ftype := (match ftype with | some t => t | none => f.ftype),
+           attrs := if typeChanged then attrs else dUpdate f.attrs attrs }
+
+def changeNeedsInitial (ftype' : String) (initial : Option Val) (attrs : List (String × Val)) : Bool :=
+  match dGet attrs "null" with
+  | some v => !truthy v && !isM2M ftype' && initial.isNone
+  | none => false
+
 def simChangeField (e : Env) (field : String) (ftype : Option String) (initial : Option Val)
     (attrs : List (String × Val)) (m : ModelSig) : Except SimErr ModelSig :=
   match m.getField field with
   | none => .error .fieldNotFound
   | some f =>
-    let typeChanged : Bool := match ftype with
-      | none => false
-      | some t => if t == f.ftype then false
-                  else !(e.dbType f.ftype f.attrs == e.dbType t (popKey attrs "related_model"))
-    let ftype' := match ftype with | some t => t | none => f.ftype
-    let attrs' := if typeChanged then attrs else dUpdate f.attrs attrs
-    let f' : FieldSig := { f with ftype := ftype', attrs := attrs' }
-    let m' := m.addField f'
-    match dGet attrs "null" with
-    | some v => if !truthy v && !isM2M ftype' && initial.isNone then .error .needInitial else .ok m'
-    | none => .ok m'
+    if changeNeedsInitial (changedField e f ftype attrs).ftype initial attrs then .error .needInitial
+    else .ok (m.addField (changedField e f ftype attrs))
 
 def simDeleteField (e : Env) (field : String) (m : ModelSig) : Except SimErr ModelSig :=
   match m.getField field with
@@ -187,10 +192,13 @@ def rewriteRefs (p : ProjectSig) (old new : String) : ProjectSig :=
 (`parts = related_model.split('.', 1)[1]`, then `parts[0] == old_app_label` compares the first
 *character* of the model name; `parts[1]` is its second character) when `fixed = false`, and the
 intended behaviour when `fixed = true`. -/
+def splitDotL : List Char → Option (List Char × List Char)
+  | [] => none
+  | c :: r => if c = '.' then some ([], r) else (splitDotL r).map (fun ab => (c :: ab.1, ab.2))
+
+/-- `s.split('.', 1)` when `s` contains a dot (structural, so that it reduces in the kernel) -/
 def splitDot (s : String) : Option (String × String) :=
-  match s.splitOn "." with
-  | a :: b :: rest => some (a, String.intercalate "." (b :: rest))
-  | _ => none
+  (splitDotL s.toList).map (fun ab => (String.ofList ab.1, String.ofList ab.2))
 
 def renameLabelRef (fixed : Bool) (old new : String) (rel : String) : Except SimErr String :=
   match splitDot rel with
